@@ -324,10 +324,10 @@ def main():
         if r["vir_error"]:
             undec_reasons.append("%s: verus reported a VIR error" % r["unit"])
 
-    if not canary_ok:
-        return undecided("canary obligation did not fail: pipeline is vacuous")
     if undec_reasons:
         return undecided("; ".join(undec_reasons)[:600])
+    if not canary_ok:
+        return undecided("canary obligation did not fail: pipeline is vacuous")
     if untagged_fail:
         return undecided("supporting lemma failed: " + ", ".join("%s/%s" % (u, rid) for u, rid, _ in untagged_fail)[:400])
     if not obligations:
